@@ -324,7 +324,6 @@ bool team<T>::load(std::istream &in, const symbol_set &ss)
     return false;
 
   decltype(individuals_) v;
-  v.reserve(n);
 
   for (unsigned j(0); j < n; ++j)
   {
